@@ -45,8 +45,10 @@ class Layout(object):
             if "." in self.name and self.kind == "function" and style.get("absent_keeps_class", True):
                 cls = self.name.split(".")[0]
                 holder = "class %s(object):\n    \"\"\" %s class \"\"\"\n\n    marker: int = 1" % (cls, cls)
-                return render.assemble(self.before, holder, self.after, self.trailing_newline, self.module_doc)
-            body = render.assemble(self.before, None, self.after, self.trailing_newline, self.module_doc)
+                return render.assemble(self.before, holder, [u for u in self.after if u["kind"] not in ("rebind_ann",)], self.trailing_newline, self.module_doc)
+            # statements that use the definition's name make no sense in a file that does not define it
+            after = [u for u in self.after if u["kind"] not in ("rebind", "rebind_ann", "use_after")]
+            body = render.assemble(self.before, None, after, self.trailing_newline, self.module_doc)
             return body if body.strip() else "import os\n"
         return render.assemble(self.before, self.definition(desc, style), self.after, self.trailing_newline, self.module_doc)
 
@@ -60,7 +62,9 @@ def gen_layout(ch, label, kind, name, desc, rich):
     k_after = ch.int(label + ".na", 0, 2 if rich else 1) if ch.chance(label + ".surround2", 0.6 if rich else 0.3) else 0
     coll = _colliding(desc, name)
     before = render.unrelated_statements(ch, label + "b", coll, k_before)
-    after = render.unrelated_statements(ch, label + "a", coll, k_after)
+    # statements after the definition may re-bind or use the name it binds (a decorator applied by hand, an alias)
+    bound = name.split(".")[0]
+    after = render.unrelated_statements(ch, label + "a", coll, k_after, after_def=bound if rich or ch.chance(label + ".rb", 0.5) else None)
     siblings = []
     if "." in name:
         for i in range(ch.int(label + ".nsib", 0, 2)):
